@@ -42,3 +42,12 @@ CLASSES = [
     ("C02-sql-one-limit-for-all-filters", "sql", k3_missing),
     ("C12-sql-one-limit-for-all-filters", "sql", k3_more),
 ]
+
+
+def k7a_delegation(prop, kind, f, store):
+    """K7a: stored SQL matching honours NIP-26 delegation for `authors`, live matching does not"""
+    return prop == "C05" and kind == "live-disagrees-with-stored" and "authors" in f and len(store) == 1 and \
+        store[0].pubkey not in f["authors"] and any(len(t) > 1 and t[0] == "delegation" and t[1] in f["authors"] for t in store[0].tags)
+
+
+CLASSES.append(("C05-sql-live-ignores-delegated-author", "sql", k7a_delegation))
